@@ -31,7 +31,7 @@ def main():
                 continue
             open(p, "w").write(s.replace(m["old"], m["new"]))
             for pid in m["props"]:
-                r = subprocess.run([os.path.join(VERIF, "check"), pid], capture_output=True, text=True, env=dict(os.environ, REX_REPO=d, VERIF_NO_EVIDENCE="1"), timeout=3000)
+                r = subprocess.run([os.path.join(VERIF, "check"), pid], capture_output=True, text=True, env=dict(os.environ, REX_REPO=d, VERIF_EVIDENCE_DIR=os.path.join(d, "ev"), VERIF_REPLAY_DIR=os.path.join(d, "rp")), timeout=3000)
                 viol = [l for l in r.stdout.splitlines() if l.startswith("VIOLATION")]
                 status = "KILLED" if r.returncode == 1 and viol else f"SURVIVED(exit={r.returncode})"
                 if status != "KILLED":
